@@ -16,7 +16,7 @@ MODES = ["forward", "backward", "central", "forward_central_backward", "prewitt"
 MARGIN1 = {"forward": (0, 1), "backward": (1, 0), "central": (1, 1), "forward_central_backward": (0, 0), "prewitt": (0, 0), "sobel": (0, 0), "bspline": (1, 1)}
 CH = "uvw"
 AX = "xyz"
-DERIV_CFG = ("SPECIFICATION Spec\nCONSTANTS\n  Shapes <- QShapes\n  SpacingsOf <- QSpacings\n  FieldsOf <- QFields\n  Probes <- QProbes\n"
+DERIV_CFG = ("SPECIFICATION Spec\nCONSTANTS\n  Shapes <- {T}Shapes\n  SpacingsOf <- {T}Spacings\n  FieldsOf <- {T}Fields\n  Probes <- {T}Probes\n"
              "  EmitCases = {emit}\n{inv}CONSTRAINT Emit\n")
 
 
@@ -193,8 +193,8 @@ def check_case(ctx: Ctx, c: Dict[str, Any], k: int = 0) -> None:
 def run(ctx: Ctx) -> None:
     ctx.rule = ("one case per (shape, spacing, polynomial vector field) x 7 schemes x spacing form; first derivatives of affine fields on each scheme's "
                 "exact index set, first/second derivatives of quadratic fields at interior probes, key algebra, det/div/curl/Jacobian at probes")
-    ctx.tlc("MC_Deriv", DERIV_CFG.format(emit="FALSE", inv="INVARIANT Laws\n"), label="laws", timeout=3000)
-    res = ctx.tlc("MC_Deriv", DERIV_CFG.format(emit="TRUE", inv=""), label="emit", timeout=3000)
+    ctx.tlc("MC_Deriv", DERIV_CFG.format(T="Q" if ctx.tier == "quick" else "T", emit="FALSE", inv="INVARIANT Laws\n"), label="laws", timeout=3000)
+    res = ctx.tlc("MC_Deriv", DERIV_CFG.format(T="Q" if ctx.tier == "quick" else "T", emit="TRUE", inv=""), label="emit", timeout=3000)
     cases = json_lines(res, key=None)
     if not cases:
         raise MachineryError("no cases")
